@@ -92,3 +92,806 @@ Theorem key_collision_refuted :
 Proof.
   exists [97; 32; 98], [99], [97], [98; 32; 99]. split; [discriminate|]. split; vm_compute; reflexivity.
 Qed.
+
+(* ---------------------------------------------------------------------------------------------- *)
+(* Generic list lemmas                                                                              *)
+(* ---------------------------------------------------------------------------------------------- *)
+
+Lemma set_nth_length : forall A (l : list A) n a, length (set_nth l n a) = length l.
+Proof. induction l as [|x l IH]; intros [|n] a; cbn; auto. Qed.
+
+Lemma nth_error_set_nth_eq : forall A (l : list A) n a x,
+  nth_error l n = Some x -> nth_error (set_nth l n a) n = Some a.
+Proof. induction l as [|y l IH]; intros [|n] a x H; cbn in *; try discriminate; eauto. Qed.
+
+Lemma nth_error_set_nth_neq : forall A (l : list A) n m a, n <> m ->
+  nth_error (set_nth l n a) m = nth_error l m.
+Proof.
+  induction l as [|y l IH]; intros [|n] [|m] a H; cbn; try reflexivity; try congruence.
+  apply IH. congruence.
+Qed.
+
+Lemma Forall_set_nth : forall A (P : A -> Prop) (l : list A) n a,
+  Forall P l -> P a -> Forall P (set_nth l n a).
+Proof.
+  induction l as [|y l IH]; intros [|n] a Hl Ha; cbn; auto; inversion Hl; subst; constructor; auto.
+Qed.
+
+Lemma nth_error_Forall : forall A (P : A -> Prop) (l : list A) n x, Forall P l -> nth_error l n = Some x -> P x.
+Proof. intros A P l n x Hl Hn. apply nth_error_In in Hn. rewrite Forall_forall in Hl. auto. Qed.
+
+(* ---------------------------------------------------------------------------------------------- *)
+(* The invariant of Cache.step                                                                      *)
+(* ---------------------------------------------------------------------------------------------- *)
+
+Section Proofs.
+  Variables data value : Type.
+  Variable evalf : Z -> data -> value.
+  Variable filt : value -> value.
+  Variable lookup : Z -> name -> name -> option data.
+  Variable mk : name -> name -> key.
+  Variable split : key -> option (name * name).
+  Variable L : Z.
+  Variable fixed0 : bool.
+  Hypothesis HL : 0 <= L.
+  (* the cache is only consulted with a positive lifetime (repaired code: fixed0 = true; or expire-cache > 0) *)
+  Hypothesis Hcfg : use_cache L fixed0 = true -> 0 < L.
+
+  Notation stepf := (step data value evalf lookup mk split L fixed0).
+  Notation State := (state data value).
+  Notation Event := (event data value).
+
+  (* what evaluateConsumerStatus makes of the key at storage time s *)
+  Definition res_of (k : key) (s : Z) : option (cval value) :=
+    match split k with
+    | None => None
+    | Some (c, g) => match lookup s c g with
+                     | None => None
+                     | Some d => Some (c, g, evalf s d)
+                     end
+    end.
+
+  (* that storage fetch is in the trace *)
+  Definition logged (k : key) (s : Z) (tr : list Event) : Prop :=
+    match split k with
+    | None => True
+    | Some (c, g) => exists tid, In (EvLookup tid s c g (lookup s c g)) tr
+    end.
+
+  Definition entry_ok (clk : Z) (tr : list Event) (k : key) (e : entry value) : Prop :=
+    e_res e = res_of k (e_snap e) /\ logged k (e_snap e) tr /\ e_snap e <= e_created e /\ e_created e <= clk.
+
+  Definition phase_ok (clk : Z) (tr : list Event) (k : key) (start : Z) (ph : phase value) : Prop :=
+    match ph with
+    | PRead => True
+    | PLookup => start <= clk
+    | PStoreGood v s => Some v = res_of k s /\ logged k s tr /\ start <= s /\ s <= clk
+    | PErrLoad s => None = res_of k s /\ logged k s tr /\ start <= s /\ s <= clk
+    | PErrStore e => e_res e = None /\ entry_ok clk tr k e /\ start <= e_snap e
+    | PReply res s c r => res = res_of k s /\ logged k s tr /\ s <= c /\ r <= c + L /\ start <= r /\ r <= clk /\ c <= clk
+    | PDone => True
+    end.
+
+  Definition thread_ok (clk : Z) (tr : list Event) (th : thread value) : Prop :=
+    phase_ok clk tr (mk (th_c th) (th_g th)) (th_start th) (th_ph th).
+
+  Definition names_of (rc rg : name) (res : option (cval value)) : name * name * option value :=
+    match res with
+    | None => (rc, rg, None)
+    | Some (c, g, v) => (c, g, Some v)
+    end.
+
+  Definition reply_ok (tr : list Event) (ev : Event) : Prop :=
+    match ev with
+    | EvReply tid t rc rg c g v s cr r start =>
+        exists res, res = res_of (mk rc rg) s /\ (c, g, v) = names_of rc rg res /\ logged (mk rc rg) s tr
+                    /\ s <= cr /\ r <= cr + L /\ start <= r /\ r <= t /\ cr <= t
+    | _ => True
+    end.
+
+  Record inv1 (st : State) : Prop := mkInv1 {
+    i_cache : Forall (fun ke => entry_ok (clock st) (trace st) (fst ke) (snd ke)) (cache st);
+    i_threads : Forall (thread_ok (clock st) (trace st)) (threads st);
+    i_trace : Forall (reply_ok (trace st)) (trace st) }.
+
+  Lemma logged_mono : forall k s tr evs, logged k s tr -> logged k s (evs ++ tr).
+  Proof.
+    unfold logged. intros k s tr evs H. destruct (split k) as [[c g]|]; auto.
+    destruct H as [tid H]. exists tid. apply in_or_app. right. exact H.
+  Qed.
+
+  Lemma entry_ok_mono : forall clk clk' tr evs k e, clk <= clk' ->
+    entry_ok clk tr k e -> entry_ok clk' (evs ++ tr) k e.
+  Proof.
+    unfold entry_ok. intros clk clk' tr evs k e Hc (H1 & H2 & H3 & H4).
+    repeat split; auto using logged_mono; lia.
+  Qed.
+
+  Lemma phase_ok_mono : forall clk clk' tr evs k start ph, clk <= clk' ->
+    phase_ok clk tr k start ph -> phase_ok clk' (evs ++ tr) k start ph.
+  Proof.
+    intros clk clk' tr evs k start ph Hc H. destruct ph; cbn [phase_ok] in *; auto.
+    - lia.
+    - destruct H as (H1 & H2 & H3 & H4). repeat split; auto using logged_mono; lia.
+    - destruct H as (H1 & H2 & H3 & H4). repeat split; auto using logged_mono; lia.
+    - destruct H as (H1 & H2 & H3). split; [exact H1|split; [eapply entry_ok_mono; eauto|exact H3]].
+    - destruct H as (H1 & H2 & H3 & H4 & H5 & H6 & H7). repeat split; auto using logged_mono; lia.
+  Qed.
+
+  Lemma reply_ok_mono : forall tr evs ev, reply_ok tr ev -> reply_ok (evs ++ tr) ev.
+  Proof.
+    intros tr evs ev H. destruct ev; cbn [reply_ok] in *; auto.
+    destruct H as (res & H1 & H2 & H3 & H4). exists res. repeat split; try tauto. apply logged_mono. tauto.
+  Qed.
+
+  Lemma find_entry_ok : forall clk tr k m e,
+    Forall (fun ke => entry_ok clk tr (fst ke) (snd ke)) m -> find_entry value k m = Some e -> entry_ok clk tr k e.
+  Proof.
+    induction m as [|[k' e'] m IH]; intros e Hm Hf; cbn [find_entry] in Hf; [discriminate|].
+    inversion Hm as [|x y Hx Hy]; subst. destruct (bytes_eqb k k') eqn:E.
+    - apply bytes_eqb_eq in E. subst k'. inversion Hf; subst. exact Hx.
+    - apply IH; assumption.
+  Qed.
+
+  Lemma not_expired_le : forall e t, use_cache L fixed0 = true -> expired value L e t = false -> t <= e_created e + L.
+  Proof.
+    intros e t Hu He. apply Hcfg in Hu. unfold expired in He.
+    assert (HL0 : (L =? 0) = false) by (apply Z.eqb_neq; lia). rewrite HL0 in He.
+    destruct (e_res e); cbn in He; apply Z.ltb_ge in He; lia.
+  Qed.
+
+  (* one generic update: thread tid becomes th' (same names), new cache bindings, new events, spawned threads *)
+  Lemma inv1_update : forall st tid th th' newc evs extra p t,
+    inv1 st -> clock st <= t ->
+    nth_error (threads st) tid = Some th ->
+    th_c th' = th_c th -> th_g th' = th_g th ->
+    Forall (fun ke => entry_ok t (evs ++ trace st) (fst ke) (snd ke)) newc ->
+    thread_ok t (evs ++ trace st) th' ->
+    Forall (thread_ok t (evs ++ trace st)) extra ->
+    Forall (reply_ok (evs ++ trace st)) evs ->
+    inv1 (mkState (newc ++ cache st) p (set_nth (threads st) tid th' ++ extra) (evs ++ trace st) t).
+  Proof.
+    intros st tid th th' newc evs extra p t [Hc Ht Hr] Hclk Hth Hcn Hgn Hnew Hth' Hex Hev.
+    constructor; cbn [cache threads trace clock].
+    - apply Forall_app. split; [exact Hnew|].
+      eapply Forall_impl; [|exact Hc]. intros [k e] H. cbn in *. eapply entry_ok_mono; eauto.
+    - apply Forall_app. split; [|exact Hex].
+      apply Forall_set_nth; [|exact Hth'].
+      eapply Forall_impl; [|exact Ht]. intros a H. unfold thread_ok in *. eapply phase_ok_mono; eauto.
+    - apply Forall_app. split; [exact Hev|].
+      eapply Forall_impl; [|exact Hr]. intros a H. apply reply_ok_mono. exact H.
+  Qed.
+
+  Lemma inv1_upd0 : forall st tid th th' newc evs p t,
+    inv1 st -> clock st <= t ->
+    nth_error (threads st) tid = Some th ->
+    th_c th' = th_c th -> th_g th' = th_g th ->
+    Forall (fun ke => entry_ok t (evs ++ trace st) (fst ke) (snd ke)) newc ->
+    thread_ok t (evs ++ trace st) th' ->
+    Forall (reply_ok (evs ++ trace st)) evs ->
+    inv1 (mkState (newc ++ cache st) p (set_nth (threads st) tid th') (evs ++ trace st) t).
+  Proof.
+    intros st tid th th' newc evs p t Hinv Hclk Hth Hcn Hgn Hnew Hth' Hev.
+    rewrite <- (app_nil_r (set_nth (threads st) tid th')).
+    eapply inv1_update; eauto.
+  Qed.
+
+  Lemma inv1_clock : forall st t, inv1 st -> clock st <= t ->
+    inv1 (mkState (cache st) (pend st) (threads st) (trace st) t).
+  Proof.
+    intros st t [Hc Ht Hr] Hclk. constructor; cbn [cache threads trace clock].
+    - eapply Forall_impl; [|exact Hc]. intros [k e] H. exact (entry_ok_mono _ _ _ [] _ _ Hclk H).
+    - eapply Forall_impl; [|exact Ht]. intros a H. exact (phase_ok_mono _ _ _ [] _ _ _ Hclk H).
+    - exact Hr.
+  Qed.
+
+  Lemma logged_here : forall k s c g tid tr, split k = Some (c, g) ->
+    logged k s (EvLookup tid s c g (lookup s c g) :: tr).
+  Proof. intros k s c g tid tr Hs. unfold logged. rewrite Hs. exists tid. left. reflexivity. Qed.
+
+  Lemma step_inv1 : forall st tid t0, inv1 st -> inv1 (stepf st tid t0).
+  Proof.
+    intros st tid t0 Hinv. unfold step.
+    set (t := Z.max (clock st) t0). assert (Hclk : clock st <= t) by (subst t; lia).
+    destruct (nth_error (threads st) tid) as [th|] eqn:Hth; [|apply inv1_clock; assumption].
+    assert (Hph : thread_ok (clock st) (trace st) th)
+      by (eapply nth_error_Forall; [apply (i_threads _ Hinv)|exact Hth]).
+    unfold thread_ok in Hph.
+    set (k := mk (th_c th) (th_g th)) in *.
+    destruct (th_ph th) eqn:Eph; cbn [phase_ok] in Hph.
+    - (* PRead *)
+      case_eq (use_cache L fixed0); intro Euc.
+      + destruct (find_entry value k (cache st)) as [e|] eqn:Ef.
+        * assert (He : entry_ok (clock st) (trace st) k e)
+            by (eapply find_entry_ok; [apply (i_cache _ Hinv)|exact Ef]).
+          destruct He as (He1 & He2 & He3 & He4).
+          destruct (expired value L e t) eqn:Eex.
+          -- eapply (inv1_upd0 st tid th _ [] [] _ t Hinv Hclk Hth); try reflexivity; auto.
+             ++ unfold thread_ok. cbn. lia.
+          -- pose proof (not_expired_le e t Euc Eex) as Hle.
+             destruct (e_res e) as [v|] eqn:Er.
+             ++ eapply (inv1_upd0 st tid th _ [] [] _ t Hinv Hclk Hth); try reflexivity; auto.
+                ** unfold thread_ok. cbn. fold k. repeat split; auto; lia.
+             ++ destruct (is_pending k (pend st)).
+                ** eapply (inv1_upd0 st tid th _ [] [] _ t Hinv Hclk Hth); try reflexivity; auto.
+                   --- unfold thread_ok. cbn. fold k. repeat split; auto; lia.
+                ** eapply (inv1_update st tid th _ [] [] [_] _ t Hinv Hclk Hth); try reflexivity; auto.
+                   --- unfold thread_ok. cbn. fold k. repeat split; auto; lia.
+                   --- constructor; [|constructor]. unfold thread_ok. cbn. lia.
+        * eapply (inv1_upd0 st tid th _ [] [] _ t Hinv Hclk Hth); try reflexivity; auto.
+          -- unfold thread_ok. cbn. lia.
+      + eapply (inv1_upd0 st tid th _ [] [] _ t Hinv Hclk Hth); try reflexivity; auto.
+        * unfold thread_ok. cbn. lia.
+    - (* PLookup *)
+      destruct (split k) as [[c g]|] eqn:Es.
+      + cbv zeta.
+        pose proof (logged_here k t c g tid (trace st) Es) as Hlog.
+        eapply (inv1_upd0 st tid th _ [] [_] _ t Hinv Hclk Hth); try reflexivity; auto.
+        * unfold thread_ok, with_phase. cbn [th_c th_g th_start th_ph]. fold k.
+          destruct (lookup t c g) as [d|] eqn:El; cbn [phase_ok]; unfold res_of; rewrite Es, El;
+            (split; [reflexivity|split; [exact Hlog|split; lia]]).
+        * constructor; [exact I|constructor].
+      + eapply (inv1_upd0 st tid th _ [] [] _ t Hinv Hclk Hth); try reflexivity; auto.
+        * unfold thread_ok, with_phase. cbn. fold k. unfold res_of, logged. rewrite Es. repeat split; auto; lia.
+    - (* PStoreGood *)
+      destruct Hph as (H1 & H2 & H3 & H4).
+      case_eq (use_cache L fixed0); intro Euc.
+      + eapply (inv1_upd0 st tid th _ [_] [_] _ t Hinv Hclk Hth); try reflexivity; auto.
+        * constructor; [|constructor]. cbn [fst snd]. unfold entry_ok. cbn [e_res e_snap e_created].
+          repeat split; auto; try lia. apply (logged_mono _ _ _ [_]). exact H2.
+        * unfold thread_ok, with_phase. cbn. fold k. repeat split; auto; try lia.
+          apply (logged_mono _ _ _ [_]). exact H2.
+        * constructor; [exact I|constructor].
+      + eapply (inv1_upd0 st tid th _ [] [] _ t Hinv Hclk Hth); try reflexivity; auto.
+        * unfold thread_ok, with_phase. cbn. fold k. repeat split; auto; lia.
+    - (* PErrLoad *)
+      destruct Hph as (H1 & H2 & H3 & H4).
+      case_eq (use_cache L fixed0); intro Euc.
+      + cbv zeta.
+        assert (Hfresh : inv1 (mkState (cache st) (pend st)
+                  (set_nth (threads st) tid (with_phase value th (PErrStore (mkEntry None t s)))) (trace st) t)).
+        { eapply (inv1_upd0 st tid th _ [] [] _ t Hinv Hclk Hth); try reflexivity; auto.
+          - unfold thread_ok, with_phase. cbn. fold k. unfold entry_ok. cbn. repeat split; auto; lia. }
+        destruct (find_entry value k (cache st)) as [e|] eqn:Ef; [|exact Hfresh].
+        destruct (e_res e) as [v|] eqn:Er; [|exact Hfresh].
+        destruct (expired value L e t) eqn:Eex; [exact Hfresh|].
+        assert (He : entry_ok (clock st) (trace st) k e)
+          by (eapply find_entry_ok; [apply (i_cache _ Hinv)|exact Ef]).
+        destruct He as (He1 & He2 & He3 & He4).
+        pose proof (not_expired_le e t Euc Eex) as Hle.
+        eapply (inv1_upd0 st tid th _ [] [] _ t Hinv Hclk Hth); try reflexivity; auto.
+        * unfold thread_ok, with_phase. cbn. fold k. rewrite <- Er. repeat split; auto; lia.
+      + eapply (inv1_upd0 st tid th _ [] [] _ t Hinv Hclk Hth); try reflexivity; auto.
+        * unfold thread_ok, with_phase. cbn. fold k. repeat split; auto; lia.
+    - (* PErrStore *)
+      destruct Hph as (H1 & (He1 & He2 & He3 & He4) & H3).
+      eapply (inv1_upd0 st tid th _ [_] [_] _ t Hinv Hclk Hth); try reflexivity; auto.
+      + constructor; [|constructor]. cbn [fst snd]. unfold entry_ok.
+        repeat split; auto; try lia. apply (logged_mono _ _ _ [_]). exact He2.
+      + unfold thread_ok, with_phase. cbn. fold k. rewrite <- H1. repeat split; auto; try lia.
+        apply (logged_mono _ _ _ [_]). exact He2.
+      + constructor; [exact I|constructor].
+    - (* PReply *)
+      destruct Hph as (H1 & H2 & H3 & H4 & H5 & H6 & H7).
+      destruct (th_async th).
+      + eapply (inv1_upd0 st tid th _ [] [] _ t Hinv Hclk Hth); try reflexivity; auto;
+          try (unfold thread_ok, with_phase; cbn; exact I).
+      + destruct (reply_names value th res) as [[rc rg] v] eqn:Ern.
+        eapply (inv1_upd0 st tid th _ [] [_] _ t Hinv Hclk Hth); try reflexivity; auto;
+          try (unfold thread_ok, with_phase; cbn; exact I).
+        constructor; [|constructor]. cbn [reply_ok]. exists res. fold k.
+        split; [exact H1|]. split; [rewrite <- Ern; reflexivity|].
+        split; [apply (logged_mono _ _ _ [_]); exact H2|]. repeat split; lia.
+    - (* PDone *)
+      apply inv1_clock; assumption.
+  Qed.
+
+  Lemma init_inv1 : forall reqs, inv1 (init data value reqs).
+  Proof.
+    intros reqs. constructor; cbn [init cache threads trace clock]; auto.
+    apply Forall_forall. intros th Hin. apply in_map_iff in Hin. destruct Hin as (cg & <- & _).
+    unfold thread_ok. cbn. exact I.
+  Qed.
+
+  Notation runf := (run_from data value evalf lookup mk split L fixed0).
+
+  Lemma run_from_inv1 : forall sched st, inv1 st -> inv1 (runf st sched).
+  Proof.
+    induction sched as [|x sched IH]; intros st H; cbn [run_from fold_left]; auto.
+    apply IH. apply step_inv1. exact H.
+  Qed.
+
+  (* ------------------------------------------------------------------------------------------ *)
+  (* Counting replies; which thread is which request                                               *)
+  (* ------------------------------------------------------------------------------------------ *)
+
+  Definition done_na (th : thread value) : bool :=
+    match th_ph th with PDone => negb (th_async th) | _ => false end.
+
+  Definition no_reply (ev : Event) : Prop :=
+    match ev with EvReply _ _ _ _ _ _ _ _ _ _ _ => False | _ => True end.
+
+  Notation repl := (replies_of data value).
+
+  Record inv2 (reqs : list (name * name)) (st : State) : Prop := mkInv2 {
+    i_req : forall i cg, nth_error reqs i = Some cg ->
+            exists th, nth_error (threads st) i = Some th /\ (th_c th, th_g th) = cg /\ th_async th = false;
+    i_asy : forall i th, nth_error (threads st) i = Some th -> (length reqs <= i)%nat -> th_async th = true;
+    i_cnt : forall i, length (repl i (trace st)) =
+                      match nth_error (threads st) i with
+                      | Some th => if done_na th then 1%nat else 0%nat
+                      | None => 0%nat
+                      end;
+    i_nam : forall tid t rc rg c g v s cr r start,
+            In (EvReply tid t rc rg c g v s cr r start) (trace st) ->
+            exists th, nth_error (threads st) tid = Some th /\ th_c th = rc /\ th_g th = rg /\ th_async th = false }.
+
+  Lemma repl_no_reply : forall evs tr i, Forall no_reply evs -> repl i (evs ++ tr) = repl i tr.
+  Proof.
+    induction evs as [|ev evs IH]; intros tr i H; [reflexivity|].
+    inversion H as [|x y Hx Hy]; subst. cbn [app].
+    destruct ev; cbn [no_reply] in Hx; [ | |contradiction]; cbn [replies_of]; apply IH; exact Hy.
+  Qed.
+
+  Lemma nth_error_upd : forall (l : list (thread value)) tid th th' extra i,
+    nth_error l tid = Some th ->
+    nth_error (set_nth l tid th' ++ extra) i =
+      if (i <? length l)%nat then (if Nat.eqb i tid then Some th' else nth_error l i)
+      else nth_error extra (i - length l).
+  Proof.
+    intros l tid th th' extra i Hth.
+    destruct (Nat.ltb_spec i (length l)) as [Hlt|Hge].
+    - rewrite nth_error_app1 by (rewrite set_nth_length; exact Hlt).
+      destruct (Nat.eqb_spec i tid) as [->|Hne].
+      + eapply nth_error_set_nth_eq; eauto.
+      + apply nth_error_set_nth_neq. congruence.
+    - rewrite nth_error_app2 by (rewrite set_nth_length; exact Hge). rewrite set_nth_length. reflexivity.
+  Qed.
+
+  Lemma inv2_quiet : forall reqs st tid th th' extra c p evs t,
+    inv2 reqs st -> nth_error (threads st) tid = Some th ->
+    th_c th' = th_c th -> th_g th' = th_g th -> th_async th' = th_async th ->
+    done_na th' = done_na th ->
+    Forall (fun a => th_async a = true /\ done_na a = false) extra ->
+    Forall no_reply evs ->
+    inv2 reqs (mkState c p (set_nth (threads st) tid th' ++ extra) (evs ++ trace st) t).
+  Proof.
+    intros reqs st tid th th' extra c p evs t [Hreq Hasy Hcnt Hnam] Hth Hc Hg Ha Hd Hex Hev.
+    assert (Hlt : (tid < length (threads st))%nat) by (apply nth_error_Some; congruence).
+    constructor; cbn [cache threads trace clock].
+    - intros i cg Hi. destruct (Hreq i cg Hi) as (th0 & H0 & H1 & H2).
+      assert (Hil : (i < length (threads st))%nat) by (apply nth_error_Some; congruence).
+      rewrite (nth_error_upd _ _ _ th' extra i Hth). apply Nat.ltb_lt in Hil. rewrite Hil.
+      destruct (Nat.eqb_spec i tid) as [->|Hne].
+      + exists th'. rewrite Hth in H0. inversion H0; subst th0. rewrite Hc, Hg, Ha. auto.
+      + exists th0. auto.
+    - intros i a Hi Hle. rewrite (nth_error_upd _ _ _ th' extra i Hth) in Hi.
+      destruct (Nat.ltb_spec i (length (threads st))) as [Hil|Hge].
+      + destruct (Nat.eqb_spec i tid) as [->|Hne].
+        * inversion Hi; subst a. rewrite Ha. eapply Hasy; eauto.
+        * eapply Hasy; eauto.
+      + apply nth_error_In in Hi. rewrite Forall_forall in Hex. apply Hex in Hi. tauto.
+    - intros i. rewrite repl_no_reply by exact Hev. rewrite Hcnt.
+      rewrite (nth_error_upd _ _ _ th' extra i Hth).
+      destruct (Nat.ltb_spec i (length (threads st))) as [Hil|Hge].
+      + destruct (Nat.eqb_spec i tid) as [->|Hne]; [|reflexivity]. rewrite Hth, Hd. reflexivity.
+      + assert (Hn : nth_error (threads st) i = None) by (apply nth_error_None; exact Hge). rewrite Hn.
+        destruct (nth_error extra (i - length (threads st))) as [a|] eqn:Ea; [|reflexivity].
+        apply nth_error_In in Ea. rewrite Forall_forall in Hex. apply Hex in Ea. destruct Ea as [_ Ea]. rewrite Ea. reflexivity.
+    - intros tid0 t1 rc rg c0 g v s cr r start Hin.
+      apply in_app_or in Hin. destruct Hin as [Hin|Hin].
+      + rewrite Forall_forall in Hev. apply Hev in Hin. contradiction.
+      + destruct (Hnam _ _ _ _ _ _ _ _ _ _ _ Hin) as (th0 & H0 & H1 & H2 & H3).
+        assert (Hil : (tid0 < length (threads st))%nat) by (apply nth_error_Some; congruence).
+        rewrite (nth_error_upd _ _ _ th' extra tid0 Hth). apply Nat.ltb_lt in Hil. rewrite Hil.
+        destruct (Nat.eqb_spec tid0 tid) as [->|Hne].
+        * exists th'. rewrite Hth in H0. inversion H0; subst th0. rewrite Hc, Hg, Ha. auto.
+        * exists th0. auto.
+  Qed.
+
+  Lemma inv2_quiet0 : forall reqs st tid th th' c p evs t,
+    inv2 reqs st -> nth_error (threads st) tid = Some th ->
+    th_c th' = th_c th -> th_g th' = th_g th -> th_async th' = th_async th ->
+    done_na th' = done_na th ->
+    Forall no_reply evs ->
+    inv2 reqs (mkState c p (set_nth (threads st) tid th') (evs ++ trace st) t).
+  Proof.
+    intros. rewrite <- (app_nil_r (set_nth (threads st) tid th')). eapply inv2_quiet; eauto.
+  Qed.
+
+  Lemma inv2_reply : forall reqs st tid th th' c p t rc rg v s cr r start,
+    inv2 reqs st -> nth_error (threads st) tid = Some th ->
+    th_c th' = th_c th -> th_g th' = th_g th -> th_async th' = th_async th ->
+    th_async th = false -> done_na th = false -> th_ph th' = PDone ->
+    inv2 reqs (mkState c p (set_nth (threads st) tid th')
+                       (EvReply tid t (th_c th) (th_g th) rc rg v s cr r start :: trace st) t).
+  Proof.
+    intros reqs st tid th th' c p t rc rg v s cr r start [Hreq Hasy Hcnt Hnam] Hth Hc Hg Ha Hna Hd Hph.
+    assert (Hlt : (tid < length (threads st))%nat) by (apply nth_error_Some; congruence).
+    assert (Hnth : forall i, nth_error (set_nth (threads st) tid th') i =
+                             if Nat.eqb i tid then Some th' else nth_error (threads st) i).
+    { intros i. destruct (Nat.eqb_spec i tid) as [->|Hne].
+      - eapply nth_error_set_nth_eq; eauto.
+      - apply nth_error_set_nth_neq. congruence. }
+    constructor; cbn [cache threads trace clock].
+    - intros i cg Hi. destruct (Hreq i cg Hi) as (th0 & H0 & H1 & H2). rewrite Hnth.
+      destruct (Nat.eqb_spec i tid) as [->|Hne].
+      + exists th'. rewrite Hth in H0. inversion H0; subst th0. rewrite Hc, Hg, Ha. auto.
+      + exists th0. auto.
+    - intros i a Hi Hle. rewrite Hnth in Hi. destruct (Nat.eqb_spec i tid) as [->|Hne].
+      + inversion Hi; subst a. rewrite Ha. eapply Hasy; eauto.
+      + eapply Hasy; eauto.
+    - intros i. cbn [replies_of]. rewrite Hnth. rewrite Nat.eqb_sym.
+      destruct (Nat.eqb_spec i tid) as [->|Hne].
+      + cbn [length]. rewrite Hcnt, Hth, Hd. unfold done_na. rewrite Hph, Ha, Hna. reflexivity.
+      + apply Hcnt.
+    - intros tid0 t1 rc0 rg0 c0 g0 v0 s0 cr0 r0 start0 Hin. rewrite Hnth.
+      destruct Hin as [Heq|Hin].
+      + inversion Heq; subst. rewrite Nat.eqb_refl. exists th'. rewrite Ha. auto.
+      + destruct (Hnam _ _ _ _ _ _ _ _ _ _ _ Hin) as (th0 & H0 & H1 & H2 & H3).
+        destruct (Nat.eqb_spec tid0 tid) as [->|Hne].
+        * exists th'. rewrite Hth in H0. inversion H0; subst th0. rewrite Hc, Hg, Ha. auto.
+        * exists th0. auto.
+  Qed.
+
+  Lemma inv2_clock : forall reqs st t, inv2 reqs st ->
+    inv2 reqs (mkState (cache st) (pend st) (threads st) (trace st) t).
+  Proof. intros reqs st t [H1 H2 H3 H4]. constructor; assumption. Qed.
+
+  Ltac dn Eph := unfold done_na, with_phase; cbn [th_ph th_async]; rewrite Eph; reflexivity.
+
+  Lemma step_inv2 : forall reqs st tid t0, inv2 reqs st -> inv2 reqs (stepf st tid t0).
+  Proof.
+    clear HL Hcfg. intros reqs st tid t0 Hinv. unfold step.
+    set (t := Z.max (clock st) t0).
+    destruct (nth_error (threads st) tid) as [th|] eqn:Hth; [|apply inv2_clock; assumption].
+    set (k := mk (th_c th) (th_g th)) in *.
+    destruct (th_ph th) eqn:Eph.
+    - (* PRead *)
+      destruct (use_cache L fixed0).
+      + destruct (find_entry value k (cache st)) as [e|].
+        * destruct (expired value L e t).
+          -- eapply (inv2_quiet0 _ st tid th _ _ _ [] t Hinv Hth); try reflexivity; [dn Eph|constructor].
+          -- destruct (e_res e) as [v|].
+             ++ eapply (inv2_quiet0 _ st tid th _ _ _ [] t Hinv Hth); try reflexivity; [dn Eph|constructor].
+             ++ destruct (is_pending k (pend st)).
+                ** eapply (inv2_quiet0 _ st tid th _ _ _ [] t Hinv Hth); try reflexivity; [dn Eph|constructor].
+                ** eapply (inv2_quiet _ st tid th _ [_] _ _ [] t Hinv Hth); try reflexivity; [dn Eph| |constructor].
+                   constructor; [|constructor]. split; reflexivity.
+        * eapply (inv2_quiet0 _ st tid th _ _ _ [] t Hinv Hth); try reflexivity; [dn Eph|constructor].
+      + eapply (inv2_quiet0 _ st tid th _ _ _ [] t Hinv Hth); try reflexivity; [dn Eph|constructor].
+    - (* PLookup *)
+      destruct (split k) as [[c g]|].
+      + cbv zeta. destruct (lookup t c g) as [d|];
+          (eapply (inv2_quiet0 _ st tid th _ _ _ [_] t Hinv Hth); try reflexivity; [dn Eph|repeat constructor]).
+      + eapply (inv2_quiet0 _ st tid th _ _ _ [] t Hinv Hth); try reflexivity; [dn Eph|constructor].
+    - (* PStoreGood *)
+      destruct (use_cache L fixed0).
+      + eapply (inv2_quiet0 _ st tid th _ _ _ [_] t Hinv Hth); try reflexivity; [dn Eph|repeat constructor].
+      + eapply (inv2_quiet0 _ st tid th _ _ _ [] t Hinv Hth); try reflexivity; [dn Eph|constructor].
+    - (* PErrLoad *)
+      destruct (use_cache L fixed0).
+      + cbv zeta.
+        assert (Hfresh : inv2 reqs (mkState (cache st) (pend st)
+                  (set_nth (threads st) tid (with_phase value th (PErrStore (mkEntry None t s)))) (trace st) t)).
+        { eapply (inv2_quiet0 _ st tid th _ _ _ [] t Hinv Hth); try reflexivity; [dn Eph|constructor]. }
+        destruct (find_entry value k (cache st)) as [e|]; [|exact Hfresh].
+        destruct (e_res e) as [v|]; [|exact Hfresh].
+        destruct (expired value L e t); [exact Hfresh|].
+        eapply (inv2_quiet0 _ st tid th _ _ _ [] t Hinv Hth); try reflexivity; [dn Eph|constructor].
+      + eapply (inv2_quiet0 _ st tid th _ _ _ [] t Hinv Hth); try reflexivity; [dn Eph|constructor].
+    - (* PErrStore *)
+      eapply (inv2_quiet0 _ st tid th _ _ _ [_] t Hinv Hth); try reflexivity; [dn Eph|repeat constructor].
+    - (* PReply *)
+      destruct (th_async th) eqn:Ea.
+      + eapply (inv2_quiet0 _ st tid th _ _ _ [] t Hinv Hth); try reflexivity; [|constructor].
+        unfold done_na, with_phase. cbn [th_ph th_async]. rewrite Eph, Ea. reflexivity.
+      + destruct (reply_names value th res) as [[rc rg] v].
+        eapply (inv2_reply _ st tid th); eauto. unfold done_na. rewrite Eph. reflexivity.
+    - apply inv2_clock; assumption.
+  Qed.
+
+  Lemma init_inv2 : forall reqs, inv2 reqs (init data value reqs).
+  Proof.
+    intros reqs. constructor; cbn [init cache threads trace clock].
+    - intros i cg Hi. exists (mkThread (fst cg) (snd cg) false 0 PRead).
+      split; [|split; [destruct cg; reflexivity|reflexivity]].
+      rewrite nth_error_map, Hi. reflexivity.
+    - intros i th Hi Hle. assert (Hn : nth_error (map (fun cg : name * name => mkThread (value:=value) (fst cg) (snd cg) false 0 PRead) reqs) i = None)
+        by (apply nth_error_None; rewrite map_length; exact Hle). congruence.
+    - intros i. cbn. rewrite nth_error_map. destruct (nth_error reqs i); reflexivity.
+    - intros tid t rc rg c g v s cr r start [].
+  Qed.
+
+  Lemma run_from_inv2 : forall reqs sched st, inv2 reqs st -> inv2 reqs (runf st sched).
+  Proof.
+    induction sched as [|x sched IH]; intros st H; cbn [run_from fold_left]; auto.
+    apply IH. apply step_inv2. exact H.
+  Qed.
+
+  (* ------------------------------------------------------------------------------------------ *)
+  (* Progress: no step blocks, every path reaches the reply in at most five steps                  *)
+  (* ------------------------------------------------------------------------------------------ *)
+
+  Definition fuel (ph : phase value) : nat :=
+    match ph with
+    | PRead => 5 | PLookup => 4 | PErrLoad _ => 3 | PStoreGood _ _ => 2 | PErrStore _ => 2
+    | PReply _ _ _ _ => 1 | PDone => 0
+    end.
+
+  Definition fuel_at (st : State) (i : nat) : nat :=
+    match nth_error (threads st) i with Some th => fuel (th_ph th) | None => 0 end.
+
+  Lemma set_nth_same : forall A (l : list A) n x, nth_error l n = Some x -> set_nth l n x = l.
+  Proof. induction l as [|y l IH]; intros [|n] x H; cbn in *; try discriminate; [congruence|f_equal; auto]. Qed.
+
+  Ltac shape0 Hth Eph :=
+    right; eexists; eexists; exists []; split; [reflexivity|]; split;
+    [cbn [threads]; symmetry; apply app_nil_r|];
+    left; unfold with_phase; cbn [th_ph]; rewrite Eph; cbn [fuel]; lia.
+
+  Lemma step_threads : forall st tid t0,
+    (nth_error (threads st) tid = None /\ threads (stepf st tid t0) = threads st) \/
+    (exists th th' extra, nth_error (threads st) tid = Some th
+       /\ threads (stepf st tid t0) = set_nth (threads st) tid th' ++ extra
+       /\ ((fuel (th_ph th') < fuel (th_ph th))%nat \/ (th_ph th = PDone /\ th' = th))).
+  Proof.
+    clear HL Hcfg. intros st tid t0. unfold step.
+    set (t := Z.max (clock st) t0).
+    destruct (nth_error (threads st) tid) as [th|] eqn:Hth; [|left; split; reflexivity].
+    set (k := mk (th_c th) (th_g th)) in *.
+    destruct (th_ph th) eqn:Eph.
+    - destruct (use_cache L fixed0).
+      + destruct (find_entry value k (cache st)) as [e|].
+        * destruct (expired value L e t); [shape0 Hth Eph|].
+          destruct (e_res e) as [v|]; [shape0 Hth Eph|].
+          destruct (is_pending k (pend st)); [shape0 Hth Eph|].
+          right. eexists. eexists. eexists. split; [reflexivity|]. split; [cbn [threads]; reflexivity|].
+          left. cbn [th_ph]. rewrite Eph. cbn [fuel]. lia.
+        * shape0 Hth Eph.
+      + shape0 Hth Eph.
+    - destruct (split k) as [[c g]|]; [|shape0 Hth Eph].
+      cbv zeta. destruct (lookup t c g); shape0 Hth Eph.
+    - destruct (use_cache L fixed0); shape0 Hth Eph.
+    - destruct (use_cache L fixed0); [|shape0 Hth Eph].
+      cbv zeta. destruct (find_entry value k (cache st)) as [e|]; [|shape0 Hth Eph].
+      destruct (e_res e) as [v|]; [|shape0 Hth Eph].
+      destruct (expired value L e t); shape0 Hth Eph.
+    - shape0 Hth Eph.
+    - destruct (th_async th); [shape0 Hth Eph|].
+      destruct (reply_names value th res) as [[rc rg] v]. shape0 Hth Eph.
+    - right. exists th, th, []. split; [reflexivity|]. split.
+      + cbn [threads]. rewrite app_nil_r. symmetry. apply set_nth_same. exact Hth.
+      + right. split; [exact Eph|reflexivity].
+  Qed.
+
+  Lemma step_length : forall st tid t0, (length (threads st) <= length (threads (stepf st tid t0)))%nat.
+  Proof.
+    intros st tid t0. destruct (step_threads st tid t0) as [[_ ->]|(th & th' & extra & _ & -> & _)]; [lia|].
+    rewrite app_length, set_nth_length. lia.
+  Qed.
+
+  Lemma step_fuel_other : forall st tid t0 i, i <> tid -> (i < length (threads st))%nat ->
+    fuel_at (stepf st tid t0) i = fuel_at st i.
+  Proof.
+    intros st tid t0 i Hne Hlt. unfold fuel_at.
+    destruct (step_threads st tid t0) as [[_ ->]|(th & th' & extra & Hth & -> & _)]; [reflexivity|].
+    rewrite (nth_error_upd _ _ _ th' extra i Hth). apply Nat.ltb_lt in Hlt. rewrite Hlt.
+    apply Nat.eqb_neq in Hne. rewrite Hne. reflexivity.
+  Qed.
+
+  Lemma step_fuel_same : forall st tid t0, (fuel_at (stepf st tid t0) tid <= pred (fuel_at st tid))%nat.
+  Proof.
+    intros st tid t0. unfold fuel_at.
+    destruct (step_threads st tid t0) as [[Hn ->]|(th & th' & extra & Hth & -> & Hf)]; [rewrite Hn; lia|].
+    rewrite (nth_error_upd _ _ _ th' extra tid Hth).
+    assert (Hlt : (tid <? length (threads st))%nat = true) by (apply Nat.ltb_lt, nth_error_Some; congruence).
+    rewrite Hlt, Nat.eqb_refl, Hth. destruct Hf as [Hf|[Hd ->]]; [lia|]. rewrite Hd. cbn. lia.
+  Qed.
+
+  Definition occ (i : nat) (sched : list (nat * Z)) : nat := count_occ Nat.eq_dec (map fst sched) i.
+
+  Lemma run_fuel : forall sched st i, (i < length (threads st))%nat ->
+    (fuel_at (runf st sched) i <= fuel_at st i - occ i sched)%nat.
+  Proof.
+    induction sched as [|[tid t0] sched IH]; intros st i Hlt; cbn [run_from fold_left]; [unfold occ; cbn; lia|].
+    cbn [fst snd].
+    assert (Hlt' : (i < length (threads (stepf st tid t0)))%nat) by (pose proof (step_length st tid t0); lia).
+    specialize (IH (stepf st tid t0) i Hlt'). fold (runf (stepf st tid t0) sched).
+    unfold occ in *. cbn [map fst count_occ]. destruct (Nat.eq_dec tid i) as [->|Hne].
+    - pose proof (step_fuel_same st i t0). lia.
+    - rewrite step_fuel_other in IH by auto. lia.
+  Qed.
+
+  (* ------------------------------------------------------------------------------------------ *)
+  (* The theorems                                                                                  *)
+  (* ------------------------------------------------------------------------------------------ *)
+
+  Notation runr := (run data value evalf lookup mk split L fixed0).
+
+  (* every request is answered at most once in every schedule, and exactly once as soon as its goroutine has been
+     scheduled five times (no step of the request can block: storage answers); nothing else is ever answered *)
+  Theorem one_reply : forall reqs sched i,
+    (length (repl i (trace (runr reqs sched))) <= 1)%nat
+    /\ ((i < length reqs)%nat -> (5 <= occ i sched)%nat -> length (repl i (trace (runr reqs sched))) = 1%nat)
+    /\ ((length reqs <= i)%nat -> repl i (trace (runr reqs sched)) = []).
+  Proof.
+    intros reqs sched i. unfold run.
+    pose proof (run_from_inv2 reqs sched _ (init_inv2 reqs)) as Hinv.
+    set (st := runf (init data value reqs) sched) in *.
+    pose proof (i_cnt _ _ Hinv i) as Hc.
+    split; [|split].
+    - rewrite Hc. destruct (nth_error (threads st) i) as [th|]; [destruct (done_na th)|]; lia.
+    - intros Hlt Hocc.
+      destruct (nth_error reqs i) as [cg|] eqn:Hr; [|apply nth_error_None in Hr; lia].
+      destruct (i_req _ _ Hinv i cg Hr) as (th & Hth & _ & Ha).
+      assert (Hl0 : (i < length (threads (init data value reqs)))%nat) by (cbn; rewrite map_length; exact Hlt).
+      pose proof (run_fuel sched _ i Hl0) as Hf. fold st in Hf.
+      assert (Hf0 : fuel_at (init data value reqs) i = 5%nat).
+      { unfold fuel_at. cbn [init threads]. rewrite nth_error_map, Hr. reflexivity. }
+      rewrite Hf0 in Hf. unfold fuel_at in Hf. rewrite Hth in Hf.
+      rewrite Hc, Hth. unfold done_na. rewrite Ha. destruct (th_ph th); cbn [fuel] in Hf; try lia. reflexivity.
+    - intros Hge. apply length_zero_iff_nil. rewrite Hc.
+      destruct (nth_error (threads st) i) as [th|] eqn:Hth; [|reflexivity].
+      pose proof (i_asy _ _ Hinv i th Hth Hge) as Ha. unfold done_na. rewrite Ha. destruct (th_ph th); reflexivity.
+  Qed.
+
+  (* every reply: it answers request tid, and is what evaluateConsumerStatus made of the key at a storage time s whose
+     fetch is in the trace, created at cr >= s, still valid (r <= cr + L) at a moment r within the request *)
+  Theorem reply_sound : forall reqs sched tid t rc rg c g v s cr r start,
+    In (EvReply tid t rc rg c g v s cr r start) (trace (runr reqs sched)) ->
+    nth_error reqs tid = Some (rc, rg)
+    /\ (c, g, v) = names_of rc rg (res_of (mk rc rg) s)
+    /\ logged (mk rc rg) s (trace (runr reqs sched))
+    /\ s <= cr /\ r <= cr + L /\ start <= r /\ r <= t /\ cr <= t.
+  Proof.
+    intros reqs sched tid t rc rg c g v s cr r start Hin. unfold run in *.
+    pose proof (run_from_inv2 reqs sched _ (init_inv2 reqs)) as Hinv2.
+    pose proof (run_from_inv1 sched _ (init_inv1 reqs)) as Hinv1.
+    set (st := runf (init data value reqs) sched) in *.
+    split.
+    - destruct (i_nam _ _ Hinv2 _ _ _ _ _ _ _ _ _ _ _ Hin) as (th & Hth & Hc & Hg & Ha).
+      destruct (Nat.lt_ge_cases tid (length reqs)) as [Hlt|Hge].
+      + destruct (nth_error reqs tid) as [cg|] eqn:Hr; [|apply nth_error_None in Hr; lia].
+        destruct (i_req _ _ Hinv2 tid cg Hr) as (th0 & Hth0 & Hcg & _).
+        rewrite Hth in Hth0. inversion Hth0; subst th0. rewrite <- Hcg, Hc, Hg. reflexivity.
+      + pose proof (i_asy _ _ Hinv2 tid th Hth Hge). congruence.
+    - pose proof (i_trace _ Hinv1) as Htr. rewrite Forall_forall in Htr. specialize (Htr _ Hin).
+      cbn [reply_ok] in Htr. destruct Htr as (res & -> & H2 & H3 & H4 & H5 & H6 & H7 & H8). tauto.
+  Qed.
+
+  (* the same, read for a request whose key splits back into its own names *)
+  Theorem reply_meaning : forall reqs sched tid t rc rg c g v s cr r start,
+    In (EvReply tid t rc rg c g v s cr r start) (trace (runr reqs sched)) ->
+    split (mk rc rg) = Some (rc, rg) ->
+    nth_error reqs tid = Some (rc, rg)
+    /\ c = rc /\ g = rg
+    /\ v = option_map (evalf s) (lookup s rc rg)
+    /\ (exists tid', In (EvLookup tid' s rc rg (lookup s rc rg)) (trace (runr reqs sched)))
+    /\ s <= cr /\ r <= cr + L /\ start <= r /\ r <= t /\ cr <= t.
+  Proof.
+    intros reqs sched tid t rc rg c g v s cr r start Hin Hsp.
+    destruct (reply_sound _ _ _ _ _ _ _ _ _ _ _ _ _ Hin) as (H1 & H2 & H3 & H4).
+    unfold res_of, logged in *. rewrite Hsp in *.
+    split; [exact H1|].
+    destruct (lookup s rc rg) as [d|]; cbn [names_of option_map] in *; inversion H2; subst; repeat split; tauto.
+  Qed.
+End Proofs.
+
+(* ---------------------------------------------------------------------------------------------- *)
+(* The statements of props/C05.v                                                                    *)
+(* ---------------------------------------------------------------------------------------------- *)
+
+Definition cfg_ok (L : Z) (fixed0 : bool) : Prop := 0 <= L /\ (use_cache L fixed0 = true -> 0 < L).
+
+Lemma cfg_ok_repaired : forall L, 0 <= L -> cfg_ok L true.
+Proof.
+  intros L HL. split; [exact HL|]. unfold use_cache. cbn. intro H. apply Z.ltb_lt in H. exact H.
+Qed.
+
+Section Statements.
+  Variables data value : Type.
+  Variable evalf : Z -> data -> value.
+  Variable filt : value -> value.
+  Variable lookup : Z -> name -> name -> option data.
+  Variable L : Z.
+  Variable fixed0 : bool.
+
+  Notation tr_of reqs sched := (trace (run data value evalf lookup mk_key split_key L fixed0 reqs sched)).
+  Notation repl := (replies_of data value).
+
+  Theorem one_reply_named : forall reqs sched i,
+    cfg_ok L fixed0 ->
+    (length (repl i (tr_of reqs sched)) <= 1)%nat
+    /\ ((i < length reqs)%nat -> (5 <= occ i sched)%nat -> length (repl i (tr_of reqs sched)) = 1%nat)
+    /\ ((length reqs <= i)%nat -> repl i (tr_of reqs sched) = [])
+    /\ (forall t rc rg c g v s cr r start,
+          In (EvReply i t rc rg c g v s cr r start) (tr_of reqs sched) ->
+          nth_error reqs i = Some (rc, rg) /\ c = rc /\ g = rg).
+  Proof.
+    intros reqs sched i [HL Hc].
+    destruct (one_reply data value evalf lookup mk_key split_key L fixed0 reqs sched i) as (H1 & H2 & H3).
+    repeat split; auto;
+      destruct (reply_meaning data value evalf lookup mk_key split_key L fixed0 HL Hc _ _ _ _ _ _ _ _ _ _ _ _ _ H
+                              (split_mk_key rc rg)) as (Ha & Hb & Hd & _); assumption.
+  Qed.
+
+  Theorem staleness_bound : forall reqs sched i t rc rg c g v s cr r start,
+    cfg_ok L fixed0 ->
+    In (EvReply i t rc rg c g v s cr r start) (tr_of reqs sched) ->
+    v = option_map (evalf s) (lookup s rc rg)
+    /\ (exists tid, In (EvLookup tid s rc rg (lookup s rc rg)) (tr_of reqs sched))
+    /\ s <= cr /\ cr <= t /\ start <= r /\ r <= t /\ r - s <= L + (cr - s).
+  Proof.
+    intros reqs sched i t rc rg c g v s cr r start [HL Hc] Hin.
+    destruct (reply_meaning data value evalf lookup mk_key split_key L fixed0 HL Hc _ _ _ _ _ _ _ _ _ _ _ _ _ Hin
+                            (split_mk_key rc rg)) as (_ & _ & _ & Hv & Hl & H1 & H2 & H3 & H4 & H5).
+    repeat split; auto; lia.
+  Qed.
+
+  Theorem notfound_iff : forall reqs sched i t rc rg c g v s cr r start,
+    cfg_ok L fixed0 ->
+    In (EvReply i t rc rg c g v s cr r start) (tr_of reqs sched) ->
+    (v = None <-> lookup s rc rg = None).
+  Proof.
+    intros reqs sched i t rc rg c g v s cr r start Hcfg Hin.
+    destruct (staleness_bound _ _ _ _ _ _ _ _ _ _ _ _ _ Hcfg Hin) as (Hv & _).
+    rewrite Hv. destruct (lookup s rc rg); cbn; split; intro H; congruence.
+  Qed.
+
+  Theorem not_shared : forall reqs sched i t rc rg c g v s cr r start j t' rc' rg' c' g' v' s' cr' r' start',
+    cfg_ok L fixed0 ->
+    In (EvReply i t rc rg c g v s cr r start) (tr_of reqs sched) ->
+    In (EvReply j t' rc' rg' c' g' v' s' cr' r' start') (tr_of reqs sched) ->
+    (rc, rg) <> (rc', rg') ->
+    mk_key rc rg <> mk_key rc' rg'
+    /\ (c, g) = (rc, rg) /\ v = option_map (evalf s) (lookup s rc rg)
+    /\ (c', g') = (rc', rg') /\ v' = option_map (evalf s') (lookup s' rc' rg').
+  Proof.
+    intros reqs sched i t rc rg c g v s cr r start j t' rc' rg' c' g' v' s' cr' r' start' [HL Hc] H1 H2 Hne.
+    destruct (reply_meaning data value evalf lookup mk_key split_key L fixed0 HL Hc _ _ _ _ _ _ _ _ _ _ _ _ _ H1
+                            (split_mk_key rc rg)) as (_ & -> & -> & Hv & _).
+    destruct (reply_meaning data value evalf lookup mk_key split_key L fixed0 HL Hc _ _ _ _ _ _ _ _ _ _ _ _ _ H2
+                            (split_mk_key rc' rg')) as (_ & -> & -> & Hv' & _).
+    repeat split; auto. intro Hk. apply key_injective in Hk. destruct Hk; subst. apply Hne. reflexivity.
+  Qed.
+
+  (* the view a request asks for is applied to the requester's copy only: which requests were filtered has no
+     influence on any event (times, fetches, raw results), hence none on what any request is delivered *)
+  Theorem filtered_does_not_disturb : forall (reqs reqs' : list (name * name * bool)) sched,
+    map fst reqs = map fst reqs' ->
+    tr_of (map fst reqs) sched = tr_of (map fst reqs') sched
+    /\ (forall i sa, nth_error (map snd reqs) i = Some sa -> nth_error (map snd reqs') i = Some sa ->
+          map (delivered data value filt sa) (repl i (tr_of (map fst reqs) sched))
+          = map (delivered data value filt sa) (repl i (tr_of (map fst reqs') sched))).
+  Proof. intros reqs reqs' sched H. rewrite H. split; [reflexivity|intros; reflexivity]. Qed.
+End Statements.
+
+(* ---- the unrepaired code (documentation of the two defects repaired in /repo) ---- *)
+
+Definition wit_lookup1 (t : Z) (c g : name) : option Z :=
+  if bytes_eqb c [97] && bytes_eqb g [98; 32; 99] then Some 7 else None.
+
+(* old key: the request for cluster "a b", group "c" is answered with cluster "a", group "b c" and that group's data *)
+Theorem names_shared_old_refuted :
+  exists reqs sched,
+    hd_error (trace (run Z Z (fun _ d => d) wit_lookup1 mk_key_old split_key_old 10 true reqs sched))
+    = Some (EvReply 0 4 [97; 32; 98] [99] [97] [98; 32; 99] (Some 7) 2 3 3 1)
+    /\ wit_lookup1 2 [97; 32; 98] [99] = None.
+Proof.
+  exists [([97; 32; 98], [99])], [(0%nat, 1); (0%nat, 2); (0%nat, 3); (0%nat, 4)]. split; vm_compute; reflexivity.
+Qed.
+
+Definition wit_lookup2 (t : Z) (c g : name) : option Z := if t <? 100 then Some 7 else None.
+
+(* expire-cache = 0 before the repair (fixed0 = false): a result fetched at 2 is served at 1000, lifetime 0 *)
+Theorem zero_lifetime_old_refuted :
+  exists reqs sched,
+    hd_error (trace (run Z Z (fun _ d => d) wit_lookup2 mk_key split_key 0 false reqs sched))
+    = Some (EvReply 1 1001 [97] [103] [97] [103] (Some 7) 2 3 1000 1000)
+    /\ wit_lookup2 1000 [97] [103] = None.
+Proof.
+  exists [([97], [103]); ([97], [103])],
+         [(0%nat, 1); (0%nat, 2); (0%nat, 3); (0%nat, 4); (1%nat, 1000); (1%nat, 1001); (1%nat, 1002); (1%nat, 1003)].
+  split; vm_compute; reflexivity.
+Qed.
